@@ -5,10 +5,11 @@ c07_correspondence(ctx, corr), c07_oracle(ctx, orc), C07_THEOREMS, LEAN_MODULES,
 replay(ctx, record).
 """
 import cpu_rv32i
+import cpu_msp430
 import cpu_sweep
 
 ID = "C07"
-CPU_MODULES = [cpu_rv32i, cpu_sweep]
+CPU_MODULES = [cpu_rv32i, cpu_msp430, cpu_sweep]
 
 LEAN_MODULES = ["NakenVerif.Props.C07"] + [m for c in CPU_MODULES for m in c.LEAN_MODULES]
 THEOREMS = [t for c in CPU_MODULES for t in c.C07_THEOREMS]
